@@ -139,7 +139,9 @@ META["C09"] = dict(technique=_FR_TECH, note=_FR_NOTE,
 for _p in ("C27", "C28", "C29"):
     REGISTRY[_p] = ("floodsub", "run")
 _FS_TECH = "TLC exhaustive model checking of FloodSub.tla (triangle, 4-ring); TLC-simulated behaviours on 7 topologies replayed on real FloodSub nodes over harness-mediated links; recorded traces (handler calls, wire taps) validated by TLC (FloodSubMon.tla)"
-_FS_NOTE = "One channel; links are in-memory; the 100 ms sweep tick is waited out; message de-duplication races are exercised statistically (two streams at once), not by a scheduler gate."
+_FS_NOTE = ("One channel; links are in-memory; the 100 ms sweep tick is waited out; message de-duplication races are exercised statistically (two streams at once), not by a scheduler gate. "
+            "Also: FloodSubDyn.tla (links that come up / streams re-opened while subscriptions change, five model mutants as directed scenarios) and PubSubPair.tla "
+            "(two complete real nodes with real pubsub controllers and a real link, driven through the BuildChannelSubscription directive).")
 META["C27"] = dict(technique=_FS_TECH, note=_FS_NOTE,
     text="DeliverAuthentic / NoForwardOfBad: in every behaviour a forged frame (foreign signature with claimed sender, tampered body, re-targeted channel, wrong context, empty channel, valid message for an unsubscribed channel) is injected on a link; "
          "subscribers are only handed authentic published messages of their channel, nodes without subscription get nothing, forged messages are never forwarded.")
